@@ -22,7 +22,7 @@ import registry                                         # noqa: E402
 from pyvc.verify import Engine                          # noqa: E402
 from pyvc.state import Unsupported, ContractError, smtlib_of, _pool_job   # noqa: E402
 
-PROPERTY_KINDS = ('post', 'exc-post', 'raises-only', 'callsite', 'pre', 'safe', 'lemma')
+PROPERTY_KINDS = ('post', 'exc-post', 'raises-only', 'callsite', 'pre', 'safe', 'lemma', 'syntactic')
 
 
 def load_known():
@@ -97,7 +97,7 @@ def generate(prop):
     seen_lemmas = set()
     for r in res:
         for ob, txt in r['obs']:
-            if ob.kind == 'lemma':
+            if ob.kind in ('lemma', 'syntactic'):
                 if ob.oid in seen_lemmas:
                     continue
                 seen_lemmas.add(ob.oid)
